@@ -216,7 +216,7 @@ func (s *state) node(t *rapid.T, d int) *ast.Node {
 	if d <= 0 {
 		return s.atom(t)
 	}
-	switch k := rapid.IntRange(0, 17).Draw(t, "node"); {
+	switch k := rapid.IntRange(0, 18).Draw(t, "node"); {
 	case k <= 2:
 		n := ast.Seq()
 		c := rapid.IntRange(2, 3).Draw(t, "seqlen")
@@ -359,6 +359,16 @@ func (s *state) node(t *rapid.T, d int) *ast.Node {
 		return ast.Seq(g, s.node(t, d-1), &ast.Node{K: ast.KBackref, Num: -1 - rapid.IntRange(0, 5).Draw(t, "refslot")})
 	case k == 14:
 		return ast.Group(ast.GAtomic, s.node(t, d-1))
+	case k == 17 && s.cfg.Inline != "":
+		// a group with an option switched on and off again inside it, followed by a plain capture group
+		l := string(s.cfg.Inline[rapid.IntRange(0, len(s.cfg.Inline)-1).Draw(t, "optletter")])
+		on, off := &ast.Node{K: ast.KOpt, S: l}, &ast.Node{K: ast.KOpt, S2: l}
+		if rapid.Bool().Draw(t, "offfirst") {
+			on, off = off, on
+		}
+		inner := ast.Seq(s.node(t, d-1), on, ast.Group(ast.GCap, s.atom(t)), off, ast.Group(ast.GCap, s.atom(t)))
+		gk := rapid.SampledFrom([]ast.GKind{ast.GCap, ast.GNon, ast.GAtomic}).Draw(t, "wrapkind")
+		return ast.Seq(ast.Group(gk, inner), ast.Group(ast.GCap, s.node(t, d-1)))
 	case k == 16 && !s.cfg.NoAnchors:
 		// a single-character loop directly before an end / boundary anchor, possibly with more after it
 		var a *ast.Node
